@@ -186,6 +186,10 @@ def check_doc(h, tag, kind, info, text, untagged, ctx):
                     ctx.violation(case, dict(who, what='result contains a foreign object', obj=bad), None)
 
 
+PROBE_CONTEXTS = {'map_key', 'alias_key', 'in_set', 'omap_key', 'in_pairs', 'omap_key_among', 'omap_same_key_twice', 'pairs_same_key_twice', 'set_same_member_twice', 'map_key_among',
+                  'in_pylist_key', 'in_pytuple', 'in_pydict', 'seq_item', 'map_value', 'in_omap'} | set(TD.TYPED_VALUE_KEY) | set(TD.TYPED_SEQ)
+
+
 def docs(shard, of, sample, seed):
     r = random.Random(core.h64('C04prod', seed))
     k = 0
@@ -195,7 +199,8 @@ def docs(shard, of, sample, seed):
             combos = [(c, s) for c in TD.FULL_CONTEXTS for s in TD.SPELLINGS]
             r.shuffle(combos)
             for c, s in combos:
-                keep = must or r.random() < sample
+                # the instrumented probe objects in every key / member / typed position are never left to sampling
+                keep = must or r.random() < sample or (s == 'bangbang' and tag.endswith(('vf_canary.PROBE', 'vf_canary.UNHASHABLE')) and ':' in tag and c in PROBE_CONTEXTS)
                 rr = TD.render(tag, kind, c, s) if keep else None
                 if rr is None:
                     continue
